@@ -34,12 +34,17 @@ class Ob:
 
     def as_json(self, prop):
         d = {"key": self.key(prop), "rule": self.rule, "fn": self.fn, "detail": self.detail, "ok": self.ok}
+        if self.fn in RENAMED:
+            d["fn_in_this_tree"] = RENAMED[self.fn]  # (rules and keys use the reference tree's name of a renamed / moved function)
         for k in ("site", "expected", "found", "note", "example"):
             v = getattr(self, k)
             if v is not None:
                 d[k] = v
         d["crates"] = sorted(self.crates)
         return d
+
+
+RENAMED = {}  # reference name -> name in the analysed tree, for functions recognised as renamed / moved (prep.recognise_renames)
 
 
 class Ctx:
@@ -52,6 +57,8 @@ class Ctx:
         self.bin = self.crates["bin"]
         self.notes = []
         for c in self.crates.values():
+            for ref_, cur_ in (c.data.get("renamed") or {}).items():
+                RENAMED[ref_] = cur_
             for line in c.data.get("prep_log", []):
                 if line not in self.notes:
                     self.notes.append("prep: " + line)
@@ -155,7 +162,7 @@ def run_check(prop, tier="quick", repo=None, ctx=None):
         with open(rp, "w") as fh:
             json.dump(o.as_json(prop), fh, indent=1, ensure_ascii=False)
         print("VIOLATION property=%s replay=%s" % (prop, rp))
-        print("  rule=%s fn=%s %s" % (o.rule, o.fn, o.detail))
+        print("  rule=%s fn=%s%s %s" % (o.rule, o.fn, (" (in this tree: %s)" % RENAMED[o.fn]) if o.fn in RENAMED else "", o.detail))
         if o.site:
             print("  at %s" % o.site)
         if o.expected is not None:
